@@ -45,6 +45,13 @@ Qed.
 Lemma walk_breaks_spec r : walk_breaks r = negb r.
 Proof. reflexivity. Qed.
 
+(* both directory entry points pass their `recursive` argument on to _collect_files_fast *)
+Lemma seq_collect_recursive_spec r : seq_collect_recursive r = r.
+Proof. reflexivity. Qed.
+
+Lemma par_collect_recursive_spec r : par_collect_recursive r = r.
+Proof. reflexivity. Qed.
+
 Lemma lint_gates_spec : lint_gates = [GHard; GIgnored].
 Proof. reflexivity. Qed.
 
